@@ -6,23 +6,24 @@ props = [json.loads(l) for l in open(os.path.join(V, "properties.jsonl"))]
 
 TECH = "solver-based bounded model checking of the real code: Kani 0.68 / CBMC 6.11 (CaDiCaL) over in-crate proof harnesses"
 TECH2 = TECH + " + MIR->SMT-LIB interleaving encoder decided by z3 and cvc5"
+TECH3 = TECH + " + symbolic execution of the function's MIR into SMT-LIB (sequential kernel, callees as nondeterministic environment), decided by z3 and cvc5, counterexamples replayed natively"
 
 CLAIMS = {
- "C01": ("model_checking", TECH, "map level: first-writer-wins under a same-key insertion race (device S3), the racers share one handle, the winner stays readable, keys are (id, type); handles survive unrelated inserts with adversarial relocation of table entries (thorough)",
-         "model table instead of hashbrown; one shard; load-level races and shard selection out of reach (DESIGN.md §6 C01)"),
- "C02": ("model_checking", TECH, "map level for the sharded and the single-threaded map: get/insert/contains/take/remove/clear delete and return exactly what they name, a foreign id or type touches nothing, everything is dropped exactly once",
+ "C01": ("model_checking", TECH3, "map level: first-writer-wins under a same-key insertion race (device S3), the racers share one handle, the winner stays readable, keys are (id, type); handles survive unrelated inserts with adversarial relocation of table entries (thorough); a look-up under a concurrent writer waits and never answers absent; shard selection of the real constructor: every CPU count up to 2^20 and every hash routes &self and &mut self accesses to the same in-range shard (E2)",
+         "model table instead of hashbrown; one shard in the Kani harnesses; load-level races out of reach (DESIGN.md §6 C01)"),
+ "C02": ("model_checking", TECH3, "map level for the sharded and the single-threaded map: get/insert/contains/take/remove/clear delete and return exactly what they name, a foreign id or type touches nothing, everything is dropped exactly once; cache front-ends with and without reloader find what get_or_insert stored; shard selection of the real constructor (E2)",
          "model table instead of hashbrown; sequences <= 4 operations; load / load_owned / directory loads through a Source are out of reach"),
- "C03": ("model_checking", TECH, "ErrorKind::or for all kind pairs and folds over <= 3 extensions; Error id/reason chain; FileContent::with_cow over all three representations; load_from_source per outcome shape (thorough only, dropped from the claim where undecided)",
-         "Kani/CBMC; model crates; std io::Error / Box<dyn Error> values forgotten (mem::forget) in harnesses; shipped loaders out of scope"),
- "C06": ("model_checking", TECH2, "entry-level reload-id/watcher/global-flag bookkeeping for all sequences of <= 5 operations; update-list precision on the dependency graph kernel (thorough); watcher/increment interleavings (E2)",
+ "C03": ("model_checking", TECH3, "ErrorKind::or for all kind pairs and folds over <= 3 extensions; Error id/reason chain; FileContent::with_cow over all three representations; From conversions; the extension loop of load_from_source for n <= 3 (quick) / 8 (thorough) extensions and every outcome per extension (E2: first usable extension in order, otherwise default_value with an error of maximal rank)",
+         "Kani/CBMC; model crates; std io::Error / Box<dyn Error> values forgotten (mem::forget) in harnesses; in the E2 kernel the load_with_ext closure is the environment; shipped loaders out of scope"),
+ "C06": ("model_checking", TECH2, "entry-level reload-id/watcher/global-flag bookkeeping for all sequences of <= 5 operations; update-list precision on the dependency graph kernel (thorough); watcher/increment interleavings and reloaded_global pollers against one reload (E2); one reloader pass reloads every affected asset exactly once, in order (E2 run_update kernel)",
          "Kani/CBMC; model crates; single-location atomics are coherent so SC interleavings are exact"),
  "C07": ("model_checking", TECH, "lock discipline of read guards (all guard shapes) and of UntypedEntry::write against a ghost-state lock model: value/id/flag change only inside the write section; writer blocks under a live guard; hot_reload blocks until answered",
          "parking_lot model: reader/writer exclusion trusted; std-lock build not covered"),
  "C08": ("model_checking", TECH, "monitor discipline of the answer protocol as one-step obligations from symbolic pre-states (who empties/fills the slot must notify; wrong-token callers and a full slot block untouched; tokens unique; reload sends its token then waits), one pass of the real reloader thread, bounded termination of the reverse-dependency visit on look-up cycles",
          "parking_lot::Condvar without spurious wake-ups (documented) and weak fairness assumed; the std-lock build is covered for the answer protocol only (std::sync::Condvar::{wait,notify_all} stubbed, spurious/foreign wake-ups allowed); composition of the one-step obligations into deadlock freedom is a pen-and-paper monitor argument (DESIGN.md §5)"),
- "C09": ("model_checking", TECH, "a Compound::load failing after 0, 1 or 2 source accesses on a cache with a reloader: the error names the id and carries the loader's error, nothing is cached or registered, cached values keep handle and value, the recording cell is restored; hot_reload returns when the reloader is gone",
-         "panics are outside (Kani is panic=abort); faults inside load_from_source and during reloads are out of reach"),
- "C10": ("model_checking", TECH, "entry kind (dynamic iff reloadable type and reloader present); write on static entries refused; get on dynamic entries refused; cache-level histories (see evidence)",
+ "C09": ("model_checking", TECH3, "a Compound::load failing after 0, 1 or 2 source accesses on a cache with a reloader: the error names the id and carries the loader's error, nothing is cached or registered, cached values keep handle and value, the recording cell is restored; hot_reload returns when the reloader is gone; a reload whose load fails writes and reports nothing, and does not keep the rest of the batch stale (E2 kernels reload_untyped, run_update); which error a failing load reports (E2 load loop)",
+         "panics are outside (Kani is panic=abort); the failing load and the reload kernel are decided separately, not as one formula"),
+ "C10": ("model_checking", TECH3, "entry kind (dynamic iff reloadable type and reloader present); write on static entries refused; get on dynamic entries refused; cache-level histories (see evidence); reload_untyped neither loads nor writes an entry that is not hot-reloaded, whatever its type says (E2)",
          "Kani/CBMC; model crates"),
  "C13": ("model_checking", TECH, "drop-exactly-once ledger + CBMC allocator checks (double free, dealloc layout, leak) over entry life cycles for 5 value layouts; TypeId discipline for 8 type pairs; wrong-type requests panic and never return",
          "CBMC allocation model stands for the real allocator"),
